@@ -251,6 +251,7 @@ class Image(Traversable):
     ) -> List[Sample]:
         sample_dict = {s.export_name: s for s in samples}
         marked = {n: False for n in sample_dict}
+        taken_names = set(sample_dict.keys())
         result = []
         for sample in samples:
 
@@ -275,7 +276,17 @@ class Image(Traversable):
                     else:
                         pairs = [alternate_sample, sample]
 
+                    # the common stem may already be the name of another
+                    # sample (or of another pair) of this directory
                     new_name = match.group(1)
+                    count = 1
+                    while new_name in taken_names:
+                        count += 1
+                        new_name = self._add_count_to_name(
+                            match.group(1), 
+                            count
+                        )
+                    taken_names.add(new_name)
                     result_sample = combine_stereo(pairs[0], pairs[1], new_name)
                     marked[alternate_name] = True
                 
